@@ -3,11 +3,14 @@ from props import batchcommon as B
 
 ID = 'C01'
 GEN = ['Batch', 'Ring']
-LEAN_TARGETS = ['OtelVerif.Props.C01']
+LEAN_TARGETS = ['OtelVerif.Props.C01', 'OtelVerif.Props.C01Compose']
 THEOREMS = ['Otel.C01.' + t for t in (
     'exports_are_consumed', 'batch_in_hand', 'accepted_delivered_at_shutdown', 'drop_only_when_full', 'no_drop_between_flushes',
     'producer_never_waits', 'commit_enabled_when_room', 'queue_exactly_once')] + ['Otel.Batch.reachable_inv', 'Otel.Batch.inv_astep',
-    'Otel.C11.add_fails_only_when_full', 'Otel.C11.consumed_is_log_prefix']
+    'Otel.C11.add_fails_only_when_full', 'Otel.C11.consumed_is_log_prefix'] + ['Otel.C01.' + t for t in (
+    # the protocol model composed with the fine-grained ring model (Model/BatchRing.lean, Props/C01Compose.lean)
+    'delivered_is_log_prefix', 'per_producer_order', 'accepted_delivered_at_shutdown_e2e', 'queue_bounded', 'drop_is_a_failed_add')] + [
+    'Otel.BatchRing.' + t for t in ('reachable', 'proj', 'commit_enabled', 'drop_enabled', 'consume_enabled', 'add_begins', 'clearing_progress')]
 HARNESSES = [B.H_BSP, B.H_BLP]
 ENGINE = 'lean-proof + deterministic-scheduler refinement check (Engine D)'
 RULE = ('schedules of the UNMODIFIED batch processors (1-3 producers with 1-4 records each tagged producer/sequence, queue 1-4, batch '
@@ -47,9 +50,13 @@ def nontrivial(case, out):
 LEVEL_TEXT = ('Lean 4, two layers: C11 (queue: accepted elements consumed exactly once, commit order, per-producer order, Add fails '
               'only when full) and the protocol model (the worker exports exactly what it consumes, everything committed before '
               'shutdown is exported, a drop needs the capacity justification - never when at most max_queue_size records are '
-              'produced since a completed flush - producers take no lock and wait for nobody). Tie: refinement check of real '
+              'produced since a completed flush - producers take no lock and wait for nobody), and their composition (Model/BatchRing: '
+              'Add runs access by access on the ring, the protocol model sees only its outcome; coupling invariant + both invariants '
+              'for every reachable state; the pairing never blocks; delivered_is_log_prefix, accepted_delivered_at_shutdown_e2e '
+              'end to end). Tie: refinement check of real '
               'executions under the deterministic scheduler; exporter log vs OnEnd events oracle.')
-LEVEL_NOTE = ('Trusted: Lean kernel; scheduler shim (SC); event abstraction; the composition argument (queue counters of the protocol '
-              'model = head/tail of the C11 model) is validated by the refinement check, not proved. A record whose OnEnd races '
+LEVEL_NOTE = ('Trusted: Lean kernel; scheduler shim (SC); event abstraction; the composition (queue counters of the protocol '
+              'model = head/tail of the C11 model) is proved (Props/C01Compose.lean); that OnEnd calls Add once and the worker calls '
+              'Consume then Export - the pairing of the composed model - is the call structure read off the source and exercised by the refinement check. A record whose OnEnd races '
               'Shutdown is outside the property.')
 DESIGN_REF = 'DESIGN.md section 4, C01; Appendix C'
